@@ -16,7 +16,7 @@ def main():
     patch = os.path.abspath(os.path.join(d, "patch%s.diff" % n))
     demo = os.path.abspath(os.path.join(d, "demo%s_test.go" % n))
     res = {"patch": patch, "props": props}
-    if sh("git -C /repo status --porcelain").stdout.strip():
+    if not os.environ.get("SEED_SCRATCH") and sh("git -C /repo status --porcelain").stdout.strip():
         print("refusing: /repo dirty"); sys.exit(2)
     wt = tempfile.mkdtemp(prefix="seedwt.", dir="/tmp")
     os.rmdir(wt)
@@ -39,6 +39,23 @@ def main():
     finally:
         sh("git -C /repo worktree remove --force %s" % wt)
     # now the checks
+    here = os.path.dirname(os.path.dirname(os.path.abspath(__file__)))
+    scratch = os.environ.get("SEED_SCRATCH")
+    if scratch:
+        # leave /repo alone (something else is using it): the checks build from a scratch worktree
+        wt2 = tempfile.mkdtemp(prefix="seedwt2.", dir="/tmp"); os.rmdir(wt2)
+        sh("git -C /repo worktree add --detach %s HEAD -q" % wt2)
+        a = sh("git -C %s apply %s" % (wt2, patch))
+        try:
+            for pr in props:
+                r = sh("cd %s && VERIF_REPO=%s VERIF_BUDGET=%s ./check %s quick" % (here, wt2, os.environ.get("SEED_BUDGET", "25"), pr))
+                sig = re.findall(r"signature: (\S+)", r.stdout)
+                res["check_" + pr] = {0: "MISSED", 1: "caught", 2: "TROUBLE"}.get(r.returncode, str(r.returncode)) + ((" [" + sig[0] + "]") if sig else "")
+                if r.returncode == 2:
+                    res["check_" + pr] += " " + (r.stderr or r.stdout)[-400:]
+        finally:
+            sh("git -C /repo worktree remove --force %s; rm -f %s/replays/*.json" % (wt2, here))
+        print(json.dumps(res, indent=1)); return
     a = sh("git -C /repo apply %s" % patch)
     try:
         for pr in props:
